@@ -3,6 +3,11 @@ import RactorModel.Lemmas.FactoryRouters
 import RactorModel.Lemmas.FactoryAffinity
 import RactorModel.Lemmas.FactoryQueuer
 import RactorModel.Lemmas.FactorySlotInst
+import RactorModel.Lemmas.FactoryActors
+import RactorModel.Lemmas.FactoryNoPanic
+import RactorModel.Lemmas.FactoryNoBacklog
+import RactorModel.Lemmas.FactoryKeyOrder
+import RactorModel.Lemmas.FactoryStartOrder
 
 /-!
 # C14 — Factory routing keeps its promises about where a job runs
@@ -62,11 +67,78 @@ theorem rr_router_step (w : W) (j : Job) (hr : w.cfg.router = .rr) (hn : w.poolS
     (w.chooseTargetWorker j none).1 =
       (if hasW w.pool (rrNext w.last w.poolSize) then some (rrNext w.last w.poolSize) else none) := by
   unfold W.chooseTargetWorker
-  simp [hr, hn, hintAvailable]
+  simp [hr, hn, hintAvailable, hintLast]
+
+/-- the round-robin router as one expression -/
+theorem rr_choose_eq (w : W) (j : Job) (hint : Option Nat) (hr : w.cfg.router = .rr) :
+    w.chooseTargetWorker j hint =
+      if w.poolSize == 0 then (none, w)
+      else if hintAvailable w.pool hint || hintLast w.pool w.last hint then (hint, w)
+      else (if hasW w.pool (rrNext w.last w.poolSize) then some (rrNext w.last w.poolSize) else none,
+            { w with last := rrNext w.last w.poolSize }) := by
+  unfold W.chooseTargetWorker
+  simp only [hr]
+
+/-- (round-robin, backlog path — finding F10, fixed) `try_route_next_active_job` asks the router for a target and
+then routes the job with that target as the hint, so the router is consulted twice for one job. The second
+consultation returns the slot picked by the first and does NOT advance the rotation again — whatever hint the
+first consultation had and whether or not the picked worker is busy: one advance per routed job. (Before the fix a
+busy pick was rejected as a hint and the pointer advanced twice: with 2 workers every backlog job after the first
+two landed on the same worker, witness `corpus/C14/e-lts-f10_round_robin_backlog_uneven.ops`.) -/
+theorem rr_backlog_single_advance (w : W) (j j' : Job) (hint : Option Nat) (k : Nat) (hr : w.cfg.router = .rr)
+    (h1 : (w.chooseTargetWorker j hint).1 = some k) :
+    (w.chooseTargetWorker j hint).2.chooseTargetWorker j' (some k) = (some k, (w.chooseTargetWorker j hint).2) := by
+  rw [rr_choose_eq w j hint hr] at h1 ⊢
+  by_cases hz : (w.poolSize == 0) = true
+  · simp [hz] at h1
+  · simp only [hz, Bool.false_eq_true, if_false] at h1 ⊢
+    by_cases hh : (hintAvailable w.pool hint || hintLast w.pool w.last hint) = true
+    · simp only [hh, if_true] at h1 ⊢
+      subst h1
+      rw [rr_choose_eq w j' _ hr]
+      simp only [hz, Bool.false_eq_true, if_false, hh, if_true]
+    · simp only [hh, Bool.false_eq_true, if_false] at h1 ⊢
+      by_cases hw : hasW w.pool (rrNext w.last w.poolSize) = true
+      · simp only [hw, if_true, Option.some.injEq] at h1
+        subst h1
+        rw [rr_choose_eq _ j' _ (by exact hr)]
+        have : hintLast w.pool (rrNext w.last w.poolSize) (some (rrNext w.last w.poolSize)) = true := by
+          simp only [hintLast, hw, beq_self_eq_true, Bool.and_self]
+        simp only [hz, Bool.false_eq_true, if_false, this, Bool.or_true, if_true, hw]
+      · simp [hw] at h1
+
+/-- (round-robin over whole dispatches) For ANY state with the pool shape of a reachable one (`C15.pool_shape`), `n > 0`
+workers, no rate limiter, the factory not draining: handling the dispatch of a non-expired job hands it to the slot
+AFTER the one chosen last (`rrNext last n`), whether that worker is busy or not, and moves the rotation there — so `n`
+consecutive dispatches visit the `n` slots of `rr_spread`, one each. -/
+theorem rr_dispatch_takes_next_slot (w : W) (j : Job) (hr : w.cfg.router = .rr) (hrl : w.rl = none)
+    (hne : j.expired w.env.now = false) (hd : w.drain = .notDraining) (hs : Shape w.poolSize w.pool) (hn : w.poolSize ≠ 0) :
+    (w.dispatch j).last = rrNext w.last w.poolSize ∧
+    ∃ p, getW w.pool (rrNext w.last w.poolSize) = some p ∧
+      getW (w.dispatch j).pool (rrNext w.last w.poolSize) = some (p.enqueueJob w.env j).1 := by
+  have hpos : 0 < w.poolSize := Nat.pos_of_ne_zero hn
+  have hw := hs.full (rrNext w.last w.poolSize) (rrNext_lt _ _ hpos)
+  obtain ⟨p, hg⟩ := hasW_getW hw
+  have hz : (w.poolSize == 0) = false := by simpa using hn
+  have hch : w.chooseTargetWorker j none = (some (rrNext w.last w.poolSize), { w with last := rrNext w.last w.poolSize }) := by
+    rw [rr_choose_eq w j none hr]
+    simp only [hz, Bool.false_eq_true, if_false, hintAvailable, hintLast, Bool.or_self, hw, if_true]
+  have hri : w.routeInner j none = (.handled, { w with
+      last := rrNext w.last w.poolSize
+      pool := setW w.pool (rrNext w.last w.poolSize) (p.enqueueJob w.env j).1
+      env := (p.enqueueJob w.env j).2 }) := by
+    unfold W.routeInner
+    rw [hch]
+    simp only [hg]
+  have hdn : (w.drain == Drain.notDraining) = true := by rw [hd]; rfl
+  unfold W.dispatch W.routeMessage W.routeLimited
+  simp only [hne, Bool.false_eq_true, if_false, hdn, if_true, hrl, hri]
+  exact ⟨trivial, p, hg, getW_setW_same hg (by rw [enqueueJob_wid]; exact getW_wid hg)⟩
 
 /-! ## Affinity (key-persistent routing) -/
 
-/-- (affinity, the part that is true of the code — `_partial`) With key-persistent routing, for
+/-- (affinity, the part that is true of the code — `_partial`) With key-persistent routing (and, since the F13 fix,
+sticky routing: `hr` is `kp ∨ sq`), for
 every configuration and EVERY sequence of operations (dispatches, completions, expiry, shedding,
 worker failures and kills at any point incl. stale completions, pool growth and shrinkage,
 settings updates, drain, a factory held busy): at any time at most ONE worker slot has a given
@@ -75,13 +147,13 @@ the invariant that makes jobs of a key follow each other onto the same slot acro
 replacement. What it does NOT give is that the ACTORS agree with the bookkeeping: after a stale
 completion (finding F4) the slot's record says the key is no longer in flight while the worker
 still runs it — see the witness below. -/
-theorem affinity_partial (c : CaseCfg) (hr : c.cfg.router = .kp) (steps : List Step) (k : Nat) :
+theorem affinity_partial (c : CaseCfg) (hr : c.cfg.router = .kp ∨ c.cfg.router = .sq) (steps : List Step) (k : Nat) :
     pendCount k ((init c).runSteps steps).pool ≤ 1 ∧ NodupW ((init c).runSteps steps).pool := by
   have h := affInv_runSteps (init c) steps (affInv_init c hr)
   exact ⟨h.aff k, h.nodup⟩
 
 /-- two slots with the same key pending are the same slot -/
-theorem affinity_unique_slot (c : CaseCfg) (hr : c.cfg.router = .kp) (steps : List Step) (k : Nat)
+theorem affinity_unique_slot (c : CaseCfg) (hr : c.cfg.router = .kp ∨ c.cfg.router = .sq) (steps : List Step) (k : Nat)
     (p1 p2 : WP) (h1 : p1 ∈ ((init c).runSteps steps).pool) (h2 : p2 ∈ ((init c).runSteps steps).pool)
     (hk1 : p1.hasPendingKey k = true) (hk2 : p2.hasPendingKey k = true) : p1 = p2 := by
   have h := (affinity_partial c hr steps k).1
@@ -129,7 +201,7 @@ theorem pending_tracks_jobs (c : CaseCfg) (steps : List Step) :
 
 /-- (affinity in terms of jobs) with key-persistent routing, jobs of one key — queued for a slot
 or booked as in flight on it — are never spread over two slots. -/
-theorem affinity_jobs_partial (c : CaseCfg) (hr : c.cfg.router = .kp) (steps : List Step) (k : Nat) (p1 p2 : WP)
+theorem affinity_jobs_partial (c : CaseCfg) (hr : c.cfg.router = .kp ∨ c.cfg.router = .sq) (steps : List Step) (k : Nat) (p1 p2 : WP)
     (h1 : p1 ∈ ((init c).runSteps steps).pool) (h2 : p2 ∈ ((init c).runSteps steps).pool)
     (hk1 : k ∈ keysCurr p1 ++ keysMq p1) (hk2 : k ∈ keysCurr p2 ++ keysMq p2) : p1 = p2 := by
   have t1 := pending_tracks_jobs c steps p1 h1 k
@@ -143,27 +215,100 @@ theorem affinity_jobs_partial (c : CaseCfg) (hr : c.cfg.router = .kp) (steps : L
 
 /-! ## Queuer routing never idles a worker while a job waits -/
 
-/-- (queuer) With queuer routing (no rate limiter in front of it), for every configuration and
-EVERY sequence of operations — dispatches, completions, worker failures and kills, TTL expiry,
-discard limits, pool growth and shrinkage, settings updates, drain, a factory held busy — after
-every step: if a job waits in the factory queue then no worker of the pool is available.
-The proof carries the soundness of the router's lazy available-workers deque (every available
-worker is flagged, every flagged worker is in the deque) through every function
-(`Lemmas/FactoryQueuer.lean`). -/
-theorem queuer_never_idles (c : CaseCfg) (hr : c.cfg.router = .q) (hrl : c.rl = none) (steps : List Step) :
+/-- (queuer) With queuer routing — with or without a rate limiter in front of the router — for every
+configuration and EVERY sequence of operations (dispatches, completions, worker failures and kills, TTL
+expiry, discard limits, pool growth and shrinkage, settings updates, drain, a factory held busy), after every
+step: if a job waits in the factory queue then no worker of the pool is available. A rate limiter does not
+weaken this: a job the limiter refuses is never left waiting (`dispatch` and the routing loop of
+`try_route_next_active_job` hand it to the discard handler as `RateLimited` and go on with the next one), and the
+worker that the loop had already taken out of the router's deque for it is announced as available again
+(`RateLimitedRouter::route_message`: `on_worker_availability_change(wid, true)`). The proof carries the
+soundness of the router's lazy available-workers deque (every available worker is flagged, every flagged
+worker is in the deque) through every function (`Lemmas/FactoryQueuer.lean`; the loop goes round once per
+refused job). -/
+theorem queuer_never_idles (c : CaseCfg) (hr : c.cfg.router = .q) (steps : List Step) :
     ((init c).runSteps steps).queue ≠ [] → ∀ p ∈ ((init c).runSteps steps).pool, p.isAvailable = false := by
   intro hq p hp
-  exact (qd_runSteps (init c) steps (qd_init c hr hrl)).q hq p hp (by simp)
+  exact (qd_runSteps (init c) steps (qd_init c hr)).q hq p hp (by simp)
 
 /-- … and whenever a worker is available the router knows it: it is flagged and in the deque,
-so the next dispatch finds it. -/
-theorem queuer_deque_sound (c : CaseCfg) (hr : c.cfg.router = .q) (hrl : c.rl = none) (steps : List Step) :
+so the next dispatch finds it — also right after the limiter refused a job that was about to go to it. -/
+theorem queuer_deque_sound (c : CaseCfg) (hr : c.cfg.router = .q) (steps : List Step) :
     ∀ p ∈ ((init c).runSteps steps).pool, p.isAvailable = true →
       p.wid ∈ ((init c).runSteps steps).inQ ∧ p.wid ∈ ((init c).runSteps steps).avail := by
   intro p hp ha
-  have d := (qd_runSteps (init c) steps (qd_init c hr hrl)).d
+  have d := (qd_runSteps (init c) steps (qd_init c hr)).d
   have h1 := d.d1 p hp (by simp) ha
   exact ⟨h1, d.sub _ h1⟩
+
+/-! ## The priority queue: which job leaves the factory queue -/
+
+theorem sorted_split_le {ps1 ps2 : List Nat} {p z : Nat} {l : List Nat} (hl : l = ps1 ++ p :: ps2)
+    (hs : l.Pairwise (· < ·)) (hz : z ∈ l) (hn : z ∉ ps1) : p ≤ z := by
+  subst hl
+  rcases List.mem_append.mp hz with h | h
+  · exact absurd h hn
+  · rcases List.mem_cons.mp h with h | h
+    · omega
+    · have := (List.pairwise_append.mp hs).2.1
+      have := (List.pairwise_cons.mp this).1 z h
+      omega
+
+theorem sorted_split_ge {ps1 ps2 : List Nat} {p z : Nat} {l : List Nat} (hl : l = ps1 ++ p :: ps2)
+    (hs : l.Pairwise (· > ·)) (hz : z ∈ l) (hn : z ∉ ps1) : z ≤ p := by
+  subst hl
+  rcases List.mem_append.mp hz with h | h
+  · exact absurd h hn
+  · rcases List.mem_cons.mp h with h | h
+    · omega
+    · have := (List.pairwise_append.mp hs).2.1
+      have := (List.pairwise_cons.mp this).1 z h
+      omega
+
+theorem prioOf_mem_up (cfg : Cfg) (j : Job) : prioOf cfg j ∈ prioUp := by
+  have := prioOf_lt cfg j
+  unfold NUM_PRIORITIES at this
+  unfold prioUp
+  generalize prioOf cfg j = n at this
+  match n, this with
+  | 0, _ | 1, _ | 2, _ | 3, _ | 4, _ => simp
+
+theorem prioOf_mem_down (cfg : Cfg) (j : Job) : prioOf cfg j ∈ prioDown := by
+  have := prioOf_mem_up cfg j
+  unfold prioUp at this; unfold prioDown
+  simp only [List.mem_cons, List.not_mem_nil, or_false] at this ⊢
+  omega
+
+/-- (`PriorityQueue::pop_front`, `DefaultQueue::pop_front` as the one-class case) for EVERY queue content: the
+job that leaves the factory queue has the most urgent priority present (lowest index), it is the OLDEST job of
+that priority, and all other jobs keep their relative order. -/
+theorem queue_pop_is_most_urgent_oldest (cfg : Cfg) (q r : List Job) (x : Job) (h : qPopFront cfg q = some (x, r)) :
+    (∀ y ∈ q, prioOf cfg x ≤ prioOf cfg y) ∧
+    ∃ pre post, q = pre ++ x :: post ∧ r = pre ++ post ∧ ∀ y ∈ pre, prioOf cfg y ≠ prioOf cfg x := by
+  obtain ⟨ps1, ps2, e1, e2, e3⟩ := popByPrio_spec (show popByPrio cfg prioUp q = some (x, r) from h)
+  refine ⟨?_, e3⟩
+  intro y hy
+  exact sorted_split_le e1 (by decide) (prioOf_mem_up cfg y) (fun hin => e2 _ hin y hy rfl)
+
+/-- (`discard_oldest`, load shedding in `Oldest` mode) the job that is shed has the LEAST urgent priority present
+(highest index) and is the oldest of that priority; the others keep their order. -/
+theorem queue_discard_oldest_is_least_urgent (cfg : Cfg) (q r : List Job) (x : Job) (h : qDiscardOldest cfg q = some (x, r)) :
+    (∀ y ∈ q, prioOf cfg y ≤ prioOf cfg x) ∧
+    ∃ pre post, q = pre ++ x :: post ∧ r = pre ++ post ∧ ∀ y ∈ pre, prioOf cfg y ≠ prioOf cfg x := by
+  obtain ⟨ps1, ps2, e1, e2, e3⟩ := popByPrio_spec (show popByPrio cfg prioDown q = some (x, r) from h)
+  refine ⟨?_, e3⟩
+  intro y hy
+  exact sorted_split_ge e1 (by decide) (prioOf_mem_down cfg y) (fun hin => e2 _ hin y hy rfl)
+
+/-- … and `peek` shows exactly the job `pop_front` will take (the routing loop asks the router about the job it
+then pops). -/
+theorem queue_peek_is_pop (cfg : Cfg) (q r : List Job) (x : Job) (h : qPopFront cfg q = some (x, r)) :
+    qPeek cfg q = some x :=
+  popByPrio_peek (show popByPrio cfg prioUp q = some (x, r) from h)
+
+example : (qPopFront { router := .q, prioQueue := true, hasHandler := true, table := [], hasCC := false }
+    [⟨1, 3, 0, none, false⟩, ⟨2, 8, 0, none, false⟩, ⟨3, 1, 0, none, false⟩, ⟨4, 15, 0, none, false⟩]).map (·.1.id) = some 2 := by
+  decide
 
 /-! ## One job at a time -/
 
@@ -189,6 +334,59 @@ theorem cast_to_busy_queues (e e' : Env) (aid : Nat) (j : Job) (h : e.cast aid j
     · rename_i hal
       simp only [Option.some.injEq] at h; subst h
       exact ⟨rfl, a, rfl, by simpa using hal⟩
+
+/-! ## The worker ACTORS (under `noStaleRun`: finding F4 excluded)
+
+`noStaleRun (init c) steps`: no step kills a live pool worker while one of its `Finished` reports
+still waits in the factory's mailbox — the exact model-level form of the oracle's classifier
+`noStaleCompletion`. The unconditional statements are FALSE of the code (F4, witness below); under
+this hypothesis they are theorems for every configuration and EVERY sequence of operations, as long
+as the factory has not entered `post_stop` (from then on it hands out nothing, `C15.drained_factory_stops`).
+Proof: the coupling invariant `Factory.Core` (`Lemmas/FactoryActors.lean`) between every slot's
+`curr_jobs` and what its actor holds (handler + mailbox) plus the pending `Finished` reports, carried
+through every function of the model. -/
+
+/-- (one job at a time, actor level — `_partial`) a live worker actor never holds more than one job:
+the one its handler runs, or one waiting in its mailbox, never both and never two — the factory hands
+a worker its next job only after that worker's completion report. Holds at every quiescent point and
+at every instant `t` at which an operation is applied. -/
+theorem worker_one_job_at_a_time_partial (c : CaseCfg) (steps : List Step) (t : Nat)
+    (hns : noStaleRun (init c) steps = true) :
+    let w := W.advanceTo t (advanceFuel ((init c).runSteps steps) t) ((init c).runSteps steps)
+    w.stopped = false → ∀ aid a, w.env.getActor aid = some a → a.alive = true → a.heldJobs.length ≤ 1 := by
+  intro w hs aid a g hal
+  exact ((j_at c steps t hns).core hs).held_le_one g hal
+
+/-- … and the job a live worker holds is the one its slot books as in flight (same key), with no
+completion report of that slot pending: actors and bookkeeping agree. -/
+theorem worker_job_is_booked_partial (c : CaseCfg) (steps : List Step) (hns : noStaleRun (init c) steps = true) :
+    let w := (init c).runSteps steps
+    w.stopped = false → ∀ aid a j, w.env.getActor aid = some a → a.alive = true → j ∈ a.heldJobs →
+      a.heldJobs = [j] ∧ ∃ p ∈ w.pool, p.actor = aid ∧ p.wid = a.wid ∧ keysCurr p = [j.key] := by
+  intro w hs aid a j g hal hj
+  obtain ⟨h1, p, hp, h2, h3, h4, _⟩ := ((j_always c steps hns).core hs).held_booked g hal hj
+  exact ⟨h1, p, hp, h2, h3, h4⟩
+
+/-- (affinity, actor level — `_partial`) With key-persistent routing — and, since the F13 fix, with STICKY routing —,
+for every configuration and
+EVERY sequence of operations without a stale completion: two live worker actors never hold (run, or
+have in their mailbox) jobs of the same key at the same time — across pool growth and shrinkage,
+worker replacement, expiry, shedding, drain and a factory held busy. -/
+theorem key_never_on_two_workers_partial (c : CaseCfg) (hr : c.cfg.router = .kp ∨ c.cfg.router = .sq) (steps : List Step)
+    (hns : noStaleRun (init c) steps = true) :
+    let w := (init c).runSteps steps
+    w.stopped = false → ∀ aid1 aid2 a1 a2 j1 j2, w.env.getActor aid1 = some a1 → w.env.getActor aid2 = some a2 →
+      a1.alive = true → a2.alive = true → j1 ∈ a1.heldJobs → j2 ∈ a2.heldJobs → j1.key = j2.key → aid1 = aid2 := by
+  intro w hs aid1 aid2 a1 a2 j1 j2 g1 g2 hal1 hal2 hj1 hj2 hk
+  have hc := (j_always c steps hns).core hs
+  obtain ⟨_, p1, hp1, hpa1, _, hc1, _⟩ := hc.held_booked g1 hal1 hj1
+  obtain ⟨_, p2, hp2, hpa2, _, hc2, _⟩ := hc.held_booked g2 hal2 hj2
+  have : p1 = p2 := by
+    apply affinity_jobs_partial c hr steps j1.key p1 p2 hp1 hp2
+    · simp only [keysCurr, hc1, List.mem_append, List.mem_singleton, true_or]
+    · simp only [keysCurr, hc2, hk, List.mem_append, List.mem_singleton, true_or]
+  subst this
+  exact hpa1.symm.trans hpa2
 
 /-! ### Findings on their concrete witnesses (the model replays them exactly: DIFF = 0 on every run)
 
@@ -216,6 +414,38 @@ example : runningKeys ((init f4Case).runSteps f4Steps) = [(1, 7), (2, 7)] := by 
 example : C14.routingOk f4Info ((init f4Case).runSteps f4Steps).env.log = false := by decide +kernel
 /-- … and the history is classified by the finding's classifier -/
 example : noStaleCompletion f4Info ((init f4Case).runSteps f4Steps).env.log = false := by decide +kernel
+/-- … and by the model-level hypothesis of the `_partial` theorems: the kill of actor 0 (step 6) is stale -/
+example : noStaleRun (init f4Case) f4Steps = false := by decide +kernel
+/-- the prefix before the kill is a run the theorems speak about -/
+example : noStaleRun (init f4Case) (f4Steps.take 5) = true := by decide +kernel
+
+/-! F13 (fixed, repo b8c72a3): sticky routing put one key on two workers WITHOUT a stale completion. An idle worker is
+killed while the factory is held busy; the flush at the release hands job 5 (key 6) to it — the hand-over fails,
+the job is parked at the head of its queue, the slot has nothing in flight —, the router (which looked at the key
+IN FLIGHT only) sends job 6 (key 6) to another worker, then the replacement starts job 5. Real output before the fix:
+`release 3 → build=[2.2,1.3] start=[2:6:6,3:5:6]` (`corpus/C14/e-lts-f13_sticky_handover_to_dead_idle_worker.ops`,
+oracle clause `c14-key-on-two-workers`, not classified stale). Fix: the sticky router keeps a key with the worker that
+has it PENDING (in flight or queued). On the fixed model the witness satisfies the oracle, only the replacement runs
+key 6, job 6 waits behind it — and `key_never_on_two_workers_partial` now covers the sticky router. -/
+def f13Case : CaseCfg :=
+  { cfg := { router := .sq, prioQueue := false, hasHandler := true, table := [], hasCC := true }, n := 2, disc := none, rl := none }
+def f13Info : Info := { router := .sq, prioQueue := false, hasHandler := true, n := 2, disc := none, rl := none }
+def f13Steps : List Step :=
+  [⟨.nop, 0, 2000000, 3000000⟩,
+   ⟨.dispatch 1 1 0 none false, 3000000, 4000000, 5000000⟩, ⟨.dispatch 2 2 0 none false, 5000000, 6000000, 7000000⟩,
+   ⟨.dispatch 3 5 0 none false, 7000000, 8000000, 9000000⟩, ⟨.dispatch 4 5 0 none false, 9000000, 10000000, 11000000⟩,
+   ⟨.dispatch 5 6 0 none false, 11000000, 12000000, 13000000⟩, ⟨.dispatch 6 6 0 none false, 13000000, 14000000, 15000000⟩,
+   ⟨.finish 0 true, 15000000, 16000000, 17000000⟩, ⟨.finish 1 true, 17000000, 18000000, 19000000⟩,
+   ⟨.block, 19000000, 101000000, 101000000⟩, ⟨.kill 1, 101000000, 102000000, 102000000⟩,
+   ⟨.release 3, 102000000, 103000000, 104000000⟩]
+example : runningKeys ((init f13Case).runSteps f13Steps) = [(0, 5), (3, 6)] := by decide +kernel
+example : C14.routingOk f13Info ((init f13Case).runSteps f13Steps).env.log = true := by decide +kernel
+example : noStaleRun (init f13Case) f13Steps = true := by decide +kernel
+/-- the sticky worker's idle neighbour: after `finish 1 ok` two jobs wait in the factory queue while worker 1 is
+idle — sticky routing hands ONE job per completion to a worker (here to worker 0, which runs its key); C14 claims
+"no idle worker while a job waits" for the plain queuer only -/
+example : ((init f13Case).runSteps (f13Steps.take 9)).queue.length = 2 ∧
+    (((init f13Case).runSteps (f13Steps.take 9)).pool.map (·.isAvailable)) = [false, true] := by decide +kernel
 
 /-! F3 (fixed): key-persistent order after growing the pool from 0. On the fixed code the witness
 is handled in dispatch order and satisfies the oracle. -/
@@ -235,6 +465,117 @@ def startOrder (w : W) : List Nat := w.env.log.filterMap fun | .start _ id _ => 
 example : startOrder ((init f3Case).runSteps f3Steps) = [1, 2, 3] := by decide +kernel
 example : C14.routingOk f3Info ((init f3Case).runSteps f3Steps).env.log = true := by decide +kernel
 
+/-! ## Worker-queueing routers never leave a backlog -/
+
+/-- (key-persistent, round-robin, custom hash) For every configuration and EVERY sequence of operations — with
+and without a rate limiter, both queue types, any resize sequence incl. growth from an empty pool (the F3 flush),
+worker deaths, drain, a factory held busy —: a job waits in the FACTORY queue only while the pool has no workers
+at all (`pool_size = 0`). As soon as the pool has workers every job is in some worker's own queue (or handed over),
+which is what "jobs are pushed to the workers' queues" promises for these routers. This was oracle clause
+`c14-worker-router-backlog` only. Proof (`Lemmas/FactoryNoBacklog.lean`): with workers in the pool the router
+always names a slot that exists (`pool_shape`), so `dispatch` never backlogs; a growing `resize_pool` flushes the
+whole backlog (one job per `try_route_next_active_job`, until none is left); nothing else lengthens the queue. -/
+theorem worker_router_never_backlogs (c : CaseCfg) (hq : isFactoryQueueing c.cfg.router = false) (steps : List Step) :
+    ((init c).runSteps steps).queue ≠ [] → ((init c).runSteps steps).poolSize = 0 :=
+  no_backlog_run c hq steps
+
+/-- … and with workers in the pool the router asked without a hint always names a slot that exists, for ANY state
+with the pool shape of a reachable one -/
+theorem worker_router_always_has_target (w : W) (j : Job) (hq : isFactoryQueueing w.cfg.router = false)
+    (hs : Shape w.poolSize w.pool) (hn : w.poolSize ≠ 0) :
+    ∃ x, (w.chooseTargetWorker j none).1 = some x ∧ hasW w.pool x = true :=
+  choose_some_of_pool w j hq hs hn
+
+/-- non-vacuity: the F3 witness (key-persistent, pool grown from 0 with a backlog of 2): queue empty afterwards -/
+example : ((init f3Case).runSteps (f3Steps.take 3)).queue.length = 2 ∧ ((init f3Case).runSteps (f3Steps.take 3)).poolSize = 0 ∧
+    ((init f3Case).runSteps (f3Steps.take 4)).queue.length = 0 ∧ ((init f3Case).runSteps (f3Steps.take 4)).poolSize = 1 := by
+  decide +kernel
+
+/-! ## Jobs of one key are handed to the workers in submission order -/
+
+/-- (order along the pipeline) For every worker-queueing router (key-persistent, round-robin, custom), every
+configuration and EVERY sequence of operations in which the submitter numbers its jobs in increasing order
+(`idsIncreasing`; "same key ⇒ smaller id" = "submitted earlier", `KO`): at every quiescent point, jobs of the same key
+are in submission order
+* inside the factory's mailbox, inside the factory queue (arrival order) and inside every worker's own queue, and
+* ACROSS them: every job in a worker's queue is older than every same-key job in the factory queue or still in the
+  factory's mailbox, and every job in the factory queue is older than every same-key job in the mailbox —
+across TTL expiry, load shedding in both modes, rate limiting, worker failures and replacement, pool growth (the
+F3 flush) and shrinkage, drain and a factory held busy. (`Lemmas/FactoryKeyOrder.lean`; freshness of a new id comes
+from `C13.conservation`: a job id that was never submitted is nowhere.) -/
+theorem key_order_pipeline (c : CaseCfg) (hq : isFactoryQueueing c.cfg.router = false) (steps : List Step)
+    (hinc : idsIncreasing steps) :
+    let w := (init c).runSteps steps
+    (inboxJobs w.inbox).Pairwise KO ∧ w.queue.Pairwise KO ∧ (∀ p ∈ w.pool, p.mq.Pairwise KO) ∧
+    (∀ x ∈ w.queue, ∀ y ∈ inboxJobs w.inbox, KO x y) ∧
+    (∀ p ∈ w.pool, ∀ x ∈ p.mq, (∀ y ∈ w.queue, KO x y) ∧ (∀ y ∈ inboxJobs w.inbox, KO x y)) := by
+  intro w
+  have h := ki_always c hq steps hinc
+  exact ⟨h.i, h.k.ord.q, h.k.ord.m, h.k.ord.qi,
+    fun p hp x hx => ⟨h.k.ord.mq p hp x hx, h.k.ord.mi p hp x hx⟩⟩
+
+/-- (no overtaking, key-persistent) With key-persistent routing the job at the head of a worker's queue — the next
+one `worker_complete` / `replace_worker` hands to the worker — is the OLDEST waiting job of its key in the whole
+factory: no job of that key waits anywhere else with a smaller id (not further back in this queue, not in another
+worker's queue — affinity —, not in the factory queue, not in the factory's mailbox). With
+`C13.worker_dequeue_skips_expired` (the hand-over takes the first non-expired job from the head, everything it skips
+is discarded) and `worker_one_job_at_a_time_partial` this is "jobs of one key are handled in submission order". -/
+theorem kp_next_job_is_oldest_of_its_key (c : CaseCfg) (hr : c.cfg.router = .kp) (steps : List Step)
+    (hinc : idsIncreasing steps) :
+    let w := (init c).runSteps steps
+    ∀ p ∈ w.pool, ∀ x rest, p.mq = x :: rest → ∀ y ∈ waiting w, y.key = x.key → x.id ≤ y.id := by
+  intro w p hp x rest hmq y hy hk
+  have hq : isFactoryQueueing c.cfg.router = false := by rw [hr]; rfl
+  have h := ki_always c hq steps hinc
+  have hxm : x ∈ p.mq := by rw [hmq]; exact List.mem_cons_self ..
+  unfold waiting at hy
+  rcases List.mem_append.mp hy with hy | hy
+  · rcases List.mem_append.mp hy with hy | hy
+    · exact Nat.le_of_lt (h.k.ord.mi p hp x hxm y hy hk.symm)
+    · exact Nat.le_of_lt (h.k.ord.mq p hp x hxm y hy hk.symm)
+  · obtain ⟨p', hp', hy'⟩ := List.mem_flatMap.mp hy
+    -- affinity: all queued jobs of a key sit in one worker's queue
+    have hpp : p = p' := by
+      apply affinity_jobs_partial c (Or.inl hr) steps x.key p p' hp hp'
+      · exact List.mem_append_right _ (List.mem_map.mpr ⟨x, hxm, rfl⟩)
+      · exact List.mem_append_right _ (List.mem_map.mpr ⟨y, hy', hk⟩)
+    subst hpp
+    rw [hmq] at hy'
+    rcases List.mem_cons.mp hy' with hy' | hy'
+    · rw [hy']; exact Nat.le_refl _
+    · have hpw := h.k.ord.m p hp
+      rw [hmq] at hpw
+      exact Nat.le_of_lt ((List.pairwise_cons.mp hpw).1 y hy' hk.symm)
+
+/-- (jobs of one key are HANDLED in submission order — `_partial`: finding F4 excluded by `noStaleRun`) With
+key-persistent routing, for every configuration (both queue types, discard limits, rate limiter, any pool size incl.
+0) and EVERY sequence of operations in which the submitter numbers its jobs in increasing order (`idsAscending`) and no
+worker is killed while a completion report of its slot is unprocessed — dispatches with any keys/TTLs, completions,
+failures, kills, resizes incl. growth from an empty pool, settings, drain, a factory held busy —, as long as the factory
+has not entered `post_stop`: for every key `k`, the `start` events of the jobs of key `k` appear in the history in
+increasing order of their ids, i.e. in submission order. (`startedIds log k` = the ids of the `start _ id k` events in
+log order.) Proof (`Lemmas/FactoryStartOrder.lean`, ~2000 lines): the worker pipeline `wq p e` = mailbox of the slot's
+actor ++ the slot's queue joins the order invariant of `key_order_pipeline`; every started id of key `k` stays below
+every waiting id of key `k`; a start takes the head of a pipeline, and by affinity (through the coupling invariant) no
+other pipeline holds the key; ids not yet handed out are nowhere (`C13.conservation`). -/
+theorem kp_jobs_start_in_submission_order_partial (c : CaseCfg) (hr : c.cfg.router = .kp) (steps : List Step)
+    (hasc : idsAscending 0 steps = true) (hns : noStaleRun (init c) steps = true)
+    (hst : ((init c).runSteps steps).stopped = false) (k : Nat) :
+    (startedIds ((init c).runSteps steps).env.log k).Pairwise (· < ·) :=
+  starts_in_order c hr steps hasc hns hst k
+
+/-- non-vacuity on the F3 witness (pool grown from 0 with a backlog, then 3 completions): the hypotheses hold and the
+jobs of key 7 started in the order 1, 2, 3 -/
+example : idsAscending 0 f3Steps = true ∧ noStaleRun (init f3Case) f3Steps = true ∧
+    ((init f3Case).runSteps f3Steps).stopped = false ∧
+    startedIds ((init f3Case).runSteps f3Steps).env.log 7 = [1, 2, 3] := by decide +kernel
+
+/-- non-vacuity: the F3 witness numbers its jobs 1, 2, 3 and leaves jobs 2 and 3 (key 7) in worker 0's queue, in order -/
+example : ((init f3Case).runSteps (f3Steps.take 5)).pool.map (fun p => p.mq.map (·.id)) = [[2, 3]] := by decide +kernel
+example : idsIncreasing f3Steps := by
+  unfold idsIncreasing f3Steps
+  simp [Step.dispatchId]
+
 /-! ### Non-vacuity -/
 def qCase : CaseCfg :=
   { cfg := { router := .q, prioQueue := false, hasHandler := true, table := [], hasCC := false }, n := 1, disc := none, rl := none }
@@ -244,6 +585,19 @@ def qSteps : List Step :=
 /-- a job waits and the only worker is busy -/
 example : ((init qCase).runSteps qSteps).queue.length = 1 ∧
     ((init qCase).runSteps qSteps).pool.map (·.isAvailable) = [false] := by decide +kernel
+/-- the hypotheses of the actor-level theorems are satisfiable by a run in which a worker holds a job -/
+example : noStaleRun (init qCase) qSteps = true ∧ ((init qCase).runSteps qSteps).stopped = false ∧
+    (((init qCase).runSteps qSteps).env.actors.map fun a => (a.alive, a.heldJobs.map (·.id))) = [(true, [1])] := by decide +kernel
+/-- queuer behind an empty leaky bucket (refill 0): every job is refused and reported `RateLimited`, none waits,
+and the worker stays available and known to the router -/
+def qrlCase : CaseCfg :=
+  { cfg := { router := .q, prioQueue := false, hasHandler := true, table := [], hasCC := false }, n := 1, disc := none,
+    rl := some (0, 1000000, 1, 0) }
+example : ((init qrlCase).runSteps qSteps).queue = [] ∧
+    ((init qrlCase).runSteps qSteps).pool.map (·.isAvailable) = [true] ∧
+    ((init qrlCase).runSteps qSteps).inQ = [0] ∧
+    (((init qrlCase).runSteps qSteps).env.log.filterMap fun | .discard r id _ => some (r, id) | _ => none)
+      = [(.rateLimited, 1), (.rateLimited, 2)] := by decide +kernel
 example : rrSeq 3 3 7 = [0, 1, 2] := by decide
 example : rrSeq 4 4 1 = [2, 3, 0, 1] := by decide
 example : chooseCustom (fun _ _ => 2 ^ 64 - 1) 5 3 = 0 := by decide
@@ -282,7 +636,8 @@ theorem generated_key_persistent_choice_eq_model (sip : Option Nat → Nat) (h :
     | none =>
       by_cases h0 : w.poolSize = 0 <;> simp [h0]
 
-/-- round-robin router: next slot after `last_worker` (wrapping at `pool_size`), stored back. -/
+/-- round-robin router: an available hint — or (F10 fix) a hint that is the router's own last pick — is honoured,
+otherwise the next slot after `last_worker` (wrapping at `pool_size`), stored back. -/
 theorem generated_round_robin_choice_eq_model (sip : Option Nat → Nat) (h : Nat → Nat → Nat)
     (w : Factory.W) (j : Factory.Job) (hint : Option Nat)
     (hr : w.cfg.router = .rr) (hl : w.last + 1 < 2 ^ 64) :
@@ -290,14 +645,14 @@ theorem generated_round_robin_choice_eq_model (sip : Option Nat → Nat) (h : Na
     (r.2, r.1.last_worker) = ((w.chooseTargetWorker j hint).1, (w.chooseTargetWorker j hint).2.last) := by
   have hadd : Rust.wAdd 64 w.last 1 = w.last + 1 := by unfold Rust.wAdd; omega
   unfold RoundRobinRouting.choose_target_worker Factory.W.chooseTargetWorker
-  simp only [hr, hintAvailable_eq, hadd, Factory.rrNext]
+  simp only [hr, hintAvailable_eq, hintLast_eq, hadd, Factory.rrNext]
   by_cases h0 : w.poolSize = 0
   · simp [h0]
   · cases hb : Option.bind hint (fun x => Factory.getW w.pool x) with
     | none => simp [h0]
     | some p =>
       cases ha : p.isAvailable
-      · simp [h0, ha]
+      · by_cases hh : hint = some w.last <;> simp [h0, ha, hh]
       · simp [h0, ha]
 
 /-- custom router: `hasher.hash(key, pool_size) % pool_size`. The router has no state. -/
@@ -332,8 +687,8 @@ theorem generated_queuer_prefix_eq_model (sip : Option Nat → Nat) (h : Nat →
   | none => simp
   | some p => cases ha : p.isAvailable <;> simp [ha]
 
-/-- sticky queuer router: hinted worker processing the key, else any worker processing the key
-(first in pool order), else an available hinted worker, else the deque loop (`popAvail`). -/
+/-- sticky queuer router (since the F13 fix: `has_pending_key`, in flight or queued): hinted worker with the key pending,
+else any worker with the key pending (first in pool order), else an available hinted worker, else the deque loop (`popAvail`). -/
 theorem generated_sticky_queuer_prefix_eq_model (sip : Option Nat → Nat) (h : Nat → Nat → Nat)
     (w : Factory.W) (j : Factory.Job) (hint : Option Nat) (hr : w.cfg.router = .sq) :
     w.chooseTargetWorker j hint =
@@ -343,16 +698,16 @@ theorem generated_sticky_queuer_prefix_eq_model (sip : Option Nat → Nat) (h : 
         let (r, avail, inQ) := Factory.popAvail w.pool w.avail w.inQ
         (r, { w with avail := avail, inQ := inQ }) := by
   unfold StickyQueuerRouting.choose_before_deque Factory.W.chooseTargetWorker
-  simp only [hr, hintAvailable_eq, hintProcessing_eq]
-  have hfind := find_pairs w.pool (fun x => x.isProcessingKey j.key)
+  simp only [hr, hintAvailable_eq, hintPending_eq]
+  have hfind := find_pairs w.pool (fun x => x.hasPendingKey j.key)
   cases hb : Option.bind hint (fun x => Factory.getW w.pool x) with
   | none =>
     simp only [hfind]
-    cases hf : w.pool.find? (fun x => x.isProcessingKey j.key) <;> simp
+    cases hf : w.pool.find? (fun x => x.hasPendingKey j.key) <;> simp
   | some p =>
-    cases hp : p.isProcessingKey j.key
+    cases hp : p.hasPendingKey j.key
     · simp only [hfind, hp]
-      cases hf : w.pool.find? (fun x => x.isProcessingKey j.key)
+      cases hf : w.pool.find? (fun x => x.hasPendingKey j.key)
       · by_cases ha : p.isAvailable = true <;> simp [ha]
       · simp
     · simp [hp]
@@ -365,14 +720,32 @@ end C14
 #print axioms C14.rr_spread
 #print axioms C14.rr_in_range
 #print axioms C14.rr_router_step
+#print axioms C14.rr_choose_eq
+#print axioms C14.rr_backlog_single_advance
+#print axioms C14.rr_dispatch_takes_next_slot
 #print axioms C14.affinity_partial
 #print axioms C14.affinity_unique_slot
 #print axioms C14.kp_routes_to_holder
 #print axioms C14.one_job_in_flight_per_slot
 #print axioms C14.pending_tracks_jobs
 #print axioms C14.affinity_jobs_partial
+#print axioms C14.worker_one_job_at_a_time_partial
+#print axioms C14.worker_job_is_booked_partial
+#print axioms C14.key_never_on_two_workers_partial
 #print axioms C14.queuer_never_idles
 #print axioms C14.queuer_deque_sound
+#print axioms C14.sorted_split_le
+#print axioms C14.sorted_split_ge
+#print axioms C14.prioOf_mem_up
+#print axioms C14.prioOf_mem_down
+#print axioms C14.queue_pop_is_most_urgent_oldest
+#print axioms C14.queue_discard_oldest_is_least_urgent
+#print axioms C14.queue_peek_is_pop
+#print axioms C14.worker_router_never_backlogs
+#print axioms C14.worker_router_always_has_target
+#print axioms C14.key_order_pipeline
+#print axioms C14.kp_next_job_is_oldest_of_its_key
+#print axioms C14.kp_jobs_start_in_submission_order_partial
 #print axioms C14.busy_worker_starts_nothing
 #print axioms C14.cast_to_busy_queues
 -- rs2lean tie
